@@ -252,6 +252,8 @@ def gen_udp(rng, k):
     its source.  Unknown address types are ignored; a stranger's datagram is treated like a reply."""
     r = rng
     L = manual_net(r, 0)
+    L.append("HOST 1 %d 0 0 %d" % (r.choice([0, 20000000]), A1 + 2))
+    L.append("HOST 2 %d 0 0 %d" % (r.choice([0, 5000000]), A1 + 3))
     cport = 4000
     ops = ["socks_new 0 1 %d 5 0" % SPORT,
            "udp_new 30 2", "udp_open 30 1", "udp_bind 30 0 0 %d" % cport, "udp_arecv 30 1 310 : 1500",
@@ -273,10 +275,22 @@ def gen_udp(rng, k):
     tid = 40
     hid = 1000
     for i in range(r.choice([1, 2, 4, 6])):
-        kind = r.choice(["fwd", "fwd", "fwd", "other_target", "badatyp", "frag", "stranger"])
+        kind = r.choice(["fwd", "fwd", "fwd", "other_target", "badatyp", "frag", "stranger", "name", "name", "name_other", "name_unknown",
+                         "short", "name_badlen"])
         payload = bytes(pat(r.randrange(1000), r.choice([1, 4, 200, 1400])))
         if kind == "fwd":
             d = bytes([0, 0, 0, 1]) + ip4(A1 + 2) + p16(7000) + payload
+        elif kind == "name":
+            d = bytes([0, 0, 0, 3, 5]) + b"host1" + p16(7000) + payload
+        elif kind == "name_other":
+            d = bytes([0, 0, 0, 3, 5]) + b"host2" + p16(7001) + payload
+        elif kind == "name_unknown":
+            d = bytes([0, 0, 0, 3]) + r.choice([bytes([5]) + b"host9", bytes([1]) + b"x", bytes([0])]) + p16(7000) + payload
+        elif kind == "short":
+            d = r.choice([b"", b"\x00", b"\x00\x00\x00", bytes([0, 0, 0, 1, 10, 0]), bytes([0, 0, 0, 1]) + ip4(A1 + 2) + b"\x1b",
+                          bytes([0, 0, 0, 3]), bytes([0, 0, 0, 3, 5]) + b"hos"])
+        elif kind == "name_badlen":
+            d = bytes([0, 0, 0, 3, r.choice([0x80, 200, 255, 6, 60])]) + b"host1" + p16(7000) + payload[:r.choice([0, 1, 3])]
         elif kind == "other_target":
             d = bytes([0, 0, 0, 1]) + ip4(A1 + 3) + p16(7001) + payload
         elif kind == "badatyp":
@@ -417,11 +431,19 @@ def oracle_udp(lines, trace):
     # what each target must have received from the relay: the payloads of well-formed client datagrams naming it
     for (tsock, h, addr, port) in ((31, 311, A1 + 2, 7000), (32, 312, A1 + 3, 7001)):
         exp = []
+        hname = b"host1" if tsock == 31 else b"host2"
         for (t, s, d, hh) in sent:
             if s == 30 and len(d) >= 10 and d[3] == 1 and d[4:8] == ip4(addr) and d[8:10] == p16(port) and len(d) > 10:
                 exp.append(ncommon.adler(d[10:]))
+            elif s == 30 and len(d) >= 5 and d[3] == 3 and len(d) > 7 + d[4] and d[5:5 + d[4]] == hname and d[5 + d[4]:7 + d[4]] == p16(port):
+                exp.append(ncommon.adler(d[7 + d[4]:]))
         got = recvd(h)
-        if [g[1] for g in got] != exp:
+        byname = any(s == 30 and len(d) >= 5 and d[3] == 3 for (t, s, d, hh) in sent)
+        if byname:
+            # a datagram that waited for the resolver may be overtaken by a later one: compare as multisets
+            if sorted(g[1] for g in got) != sorted(exp):
+                fails.append(("c17/udp-forward", "target %d received datagrams with digests %s, the client's datagrams naming it carry %s" % (tsock, sorted(g[1] for g in got)[:6], sorted(exp)[:6])))
+        elif [g[1] for g in got] != exp:
             fails.append(("c17/udp-forward", "target %d received datagrams with digests %s, the client's datagrams naming it carry %s" % (tsock, [g[1] for g in got][:6], exp[:6])))
         elif any(g[2] != relay for g in got):
             fails.append(("c17/udp-forward", "target %d saw a sender other than the relay" % tsock))
@@ -438,11 +460,15 @@ def oracle_udp(lines, trace):
     for (t, s0, d, hh) in sent:
         if s0 in (31, 32) and d:
             src = (A1 + 2, 7000) if s0 == 31 else (A1 + 3, 7001)
-            dig = ncommon.adler(bytes([0, 0, 0, 1]) + ip4(src[0]) + p16(src[1]) + d)
-            if announced or t > first_client + 200000000:
-                must.append(dig)
-            elif t >= first_client:
-                may.append(dig)
+            hname = b"host1" if s0 == 31 else b"host2"
+            digs = [ncommon.adler(bytes([0, 0, 0, 1]) + ip4(src[0]) + p16(src[1]) + d)]
+            if any(s1 == 30 and len(d1) >= 5 and d1[3] == 3 and d1[5:5 + d1[4]] == hname for (t1, s1, d1, h1) in sent):
+                # once the relay has resolved that name the reply is labelled with it
+                digs.append(ncommon.adler(bytes([0, 0, 0, 3, len(hname)]) + hname + p16(src[1]) + d))
+            if len(digs) == 1 and (announced or t > first_client + 200000000):
+                must.append(digs[0])
+            elif t >= first_client or announced:
+                may.extend(digs)
     got = sorted(g[1] for g in recvd(310))
     pool = sorted(must + may)
     missing = [x for x in must if x not in got]
